@@ -32,7 +32,7 @@ def _load_known(pid):
 
 def _describe(group, case):
     keys = ["path", "method", "cfg_name", "enabled_sets", "disable_csrf", "disable_header_check", "cfg_host", "whitelist",
-            "username", "password", "token", "host_header", "origin_header", "referer_header", "authorization", "ctype", "acrm", "status", "response"]
+            "username", "password", "token", "host_header", "origin_header", "referer_header", "authorization", "csrf_token_header", "ctype", "acrm", "status", "response"]
     return "%s: %s" % (group, json.dumps({k: case.get(k) for k in keys if k in case}))
 
 
